@@ -1,14 +1,15 @@
 package main
 
 import (
-	"go/ast"
 	"fmt"
-	"reflect"
+	"go/ast"
 	"go/token"
 	"go/types"
 	"os"
+	"reflect"
 	"sort"
 	"strings"
+	"time"
 
 	"golang.org/x/tools/go/ssa"
 )
@@ -182,11 +183,7 @@ func (e *Engine) callFunction(s *State, f *Frame, x *ssa.Call, callee *ssa.Funct
 				if cls := f.contract.LetAtCall[site]; len(cls) > 0 {
 					lc := &evalCtx{e: e, s: s, env: copyEnv(f.params), names: f.names, oldHeap: f.entryHeap, oldEnv: f.params, pkg: f.fn.Pkg.Pkg, frame: f}
 					lc.env["ret"] = r
-					for i, p := range callee.Params {
-						if i < len(args) {
-							lc.env["arg_"+p.Name()] = args[i]
-						}
-					}
+					e.bindParams(callee, args, "arg_", lc.env)
 					for gname, gv := range e.lastGhosts {
 						lc.env["ghost_"+gname] = gv
 					}
@@ -255,9 +252,9 @@ func (e *Engine) newFrame(fn *ssa.Function, args []Value, free []Value) *Frame {
 	for i, p := range fn.Params {
 		if i < len(args) {
 			nf.env[p] = args[i]
-			nf.params[p.Name()] = args[i]
 		}
 	}
+	e.bindParams(fn, args, "", nf.params)
 	for i, fv := range fn.FreeVars {
 		if i < len(free) {
 			nf.env[fv] = free[i]
@@ -299,11 +296,7 @@ func (e *Engine) applyContract(s *State, f *Frame, x ssa.Instruction, callee *ss
 	key := funcKey(callee)
 	e.funcsUsed[key] = true
 	env := map[string]Value{}
-	for i, p := range callee.Params {
-		if i < len(args) {
-			env[p.Name()] = args[i]
-		}
-	}
+	e.bindParams(callee, args, "", env)
 	site := e.callSiteName(f, x, key)
 	c := &evalCtx{e: e, s: s, env: env, pkg: callee.Pkg.Pkg}
 	// at_call clauses of the function under verification for this static site: the arguments are what the contract says
@@ -314,11 +307,7 @@ func (e *Engine) applyContract(s *State, f *Frame, x ssa.Instruction, callee *ss
 			}
 			e.atCallHit[funcKey(f.fn)+"|"+site] = true
 			ac := &evalCtx{e: e, s: s, env: copyEnv(f.params), names: f.names, oldHeap: f.entryHeap, oldEnv: f.params, pkg: f.fn.Pkg.Pkg, frame: f}
-			for i, p := range callee.Params {
-				if i < len(args) {
-					ac.env["arg_"+p.Name()] = args[i]
-				}
-			}
+			e.bindParams(callee, args, "arg_", ac.env)
 			for j, cl := range cls {
 				e.emit(s, "at-call", fmt.Sprintf("%s.%d", site, j), ac.evalBool(cl.Expr), x.Pos(), "at_call "+site+" "+cl.Src)
 			}
@@ -507,6 +496,22 @@ func (e *Engine) verifyFunctionCase(fn *ssa.Function, ct *Contract, mode Mode, s
 	e.mode = mode
 	e.curFn = fn
 	e.curC = ct
+	e.genBudget = 240
+	if e.tier == "thorough" {
+		e.genBudget = 900
+	}
+	e.deadline = time.Now().Add(time.Duration(e.genBudget) * time.Second)
+	if !e.checkDeadline.IsZero() {
+		// the whole check also has a generation budget: a change that multiplies the paths of every case must end in a
+		// verdict, not in a check that runs for hours
+		if time.Now().After(e.checkDeadline) {
+			return fmt.Errorf("%s [%s]: generation budget of the check (%d s) exceeded before this function was reached", funcKey(fn), mode, e.checkBudget)
+		}
+		if e.checkDeadline.Before(e.deadline) {
+			e.deadline = e.checkDeadline
+		}
+	}
+	defer func() { e.deadline = time.Time{} }()
 	defer func() {
 		if r := recover(); r != nil {
 			if ee, ok := r.(execError); ok {
@@ -554,12 +559,7 @@ func (e *Engine) verifyFunctionCase(fn *ssa.Function, ct *Contract, mode Mode, s
 			fieldCases = append(fieldCases, sel)
 			continue
 		}
-		idx := -1
-		for i, p := range fn.Params {
-			if p.Name() == sel.cs.Param {
-				idx = i
-			}
-		}
+		idx := e.paramIndex(fn, sel.cs.Param)
 		if idx < 0 {
 			return fmt.Errorf("%s: cases: no parameter %s", funcKey(fn), sel.cs.Param)
 		}
@@ -572,9 +572,7 @@ func (e *Engine) verifyFunctionCase(fn *ssa.Function, ct *Contract, mode Mode, s
 			return err
 		}
 		env := map[string]Value{}
-		for i, p := range fn.Params {
-			env[p.Name()] = args[i]
-		}
+		e.bindParams(fn, args, "", env)
 		c := &evalCtx{e: e, s: s, env: env, pkg: fn.Pkg.Pkg}
 		e.store(s, c.evalAddr(ex), VInt{Int64C(int64(sel.val))}, token.NoPos)
 	}
